@@ -36,6 +36,8 @@ func RunC12(c *Ctx, r *Report) {
 	c.akaEmitsAllRule(r, prefix+"aka.emits-every-attribute")
 	c.encodeOwnHeaderRule(r, prefix+"encode-own-header")
 	c.elementFreshRule(r, prefix+"decode.element-fresh")
+	c.counterNoWrapRule(r, prefix+"codec.counter-no-wrap")
+	c.guardedNarrowingRule(r, prefix+"encode.guarded-narrowing")
 	c.akaOrderRule(r, prefix+"aka.order")
 	// decoding is a function of the octets, not of what an earlier call left in the object decoded into
 	dscope := c.DecodeScope(r, prefix)
@@ -194,6 +196,10 @@ func (c *Ctx) akaPaddingRule(r *Report, prefix string) {
 							if _, isField := fieldKeyOfLoad(ap.Call.Args[0]); !isField {
 								emitted = true
 							}
+						}
+						// written to the output buffer directly: buffer.Write(make([]byte, n))
+						if g := u.Call.StaticCallee(); g != nil && g.String() == "(*bytes.Buffer).Write" && len(u.Call.Args) == 2 && u.Call.Args[1] == ssa.Value(mk) {
+							emitted = true
 						}
 					}
 				}
